@@ -30,12 +30,30 @@ func (s *Server) GetServiceProvider(_ *http.Request, serviceProviderID string) (
 	defer s.idpConfigMu.RUnlock()
 	defer vhook("runlock", "cfg", &s.idpConfigMu)
 	vhook("read", "sps", &s.idpConfigMu)
-	rv, ok := s.serviceProviders[serviceProviderID]
+	rv := s.serviceProviderByEntityID(serviceProviderID)
 	vhook("read-end", "sps", &s.idpConfigMu)
-	if !ok {
+	if rv == nil {
 		return nil, os.ErrNotExist
 	}
 	return rv, nil
+}
+
+// serviceProviderByEntityID returns the registered metadata whose entity ID is
+// serviceProviderID. The registry is keyed by service name so that it always
+// mirrors the stored services; if several services share an entity ID the one
+// with the smallest name wins. The caller must hold idpConfigMu.
+func (s *Server) serviceProviderByEntityID(serviceProviderID string) *saml.EntityDescriptor {
+	var rv *saml.EntityDescriptor
+	var rvName string
+	for name, metadata := range s.serviceProviders {
+		if metadata.EntityID != serviceProviderID {
+			continue
+		}
+		if rv == nil || name < rvName {
+			rv, rvName = metadata, name
+		}
+	}
+	return rv
 }
 
 // HandleListServices handles the `GET /services/` request and responds with a JSON formatted list
@@ -99,7 +117,7 @@ func (s *Server) HandlePutService(w http.ResponseWriter, r *http.Request) {
 	s.idpConfigMu.Lock()
 	vhook("lock-acq", "cfg", &s.idpConfigMu)
 	vhook("write", "sps", &s.idpConfigMu)
-	s.serviceProviders[service.Metadata.EntityID] = &service.Metadata
+	s.serviceProviders[r.PathValue("id")] = &service.Metadata
 	vhook("write-end", "sps", &s.idpConfigMu)
 	vhook("unlock", "cfg", &s.idpConfigMu)
 	s.idpConfigMu.Unlock()
@@ -127,7 +145,7 @@ func (s *Server) HandleDeleteService(w http.ResponseWriter, r *http.Request) {
 	s.idpConfigMu.Lock()
 	vhook("lock-acq", "cfg", &s.idpConfigMu)
 	vhook("write", "sps", &s.idpConfigMu)
-	delete(s.serviceProviders, service.Metadata.EntityID)
+	delete(s.serviceProviders, r.PathValue("id"))
 	vhook("write-end", "sps", &s.idpConfigMu)
 	vhook("unlock", "cfg", &s.idpConfigMu)
 	s.idpConfigMu.Unlock()
@@ -152,7 +170,7 @@ func (s *Server) initializeServices() error {
 		s.idpConfigMu.Lock()
 		vhook("lock-acq", "cfg", &s.idpConfigMu)
 		vhook("write", "sps", &s.idpConfigMu)
-		s.serviceProviders[service.Metadata.EntityID] = &service.Metadata
+		s.serviceProviders[serviceName] = &service.Metadata
 		vhook("write-end", "sps", &s.idpConfigMu)
 		vhook("unlock", "cfg", &s.idpConfigMu)
 		s.idpConfigMu.Unlock()
